@@ -14,6 +14,7 @@ var props = map[string]struct {
 	fn    func(*h.Run)
 }{
 	"dbg-lo": {"other", h.DebugLO},
+	"dbg-hang": {"other", h.DebugHang},
 	"dbg-rep": {"other", h.DebugRepeat},
 	"dbg-c09": {"other", h.DebugC09},
 	"C01":    {"exploration", h.C01},
@@ -30,6 +31,7 @@ var props = map[string]struct {
 	"C12":    {"model_checking", h.C12},
 	"C18":    {"exploration", h.C18},
 	"C20":    {"exploration", h.C20},
+	"C21":    {"model_checking", h.C21},
 	"C22":    {"model_checking", h.C22},
 	"C13":    {"exploration", h.C13},
 	"C14":    {"model_checking", h.C14},
